@@ -123,6 +123,19 @@ for _pid in ("C03", "C04", "C05", "C16"):
     _m["trusted"] = list(_m.get("trusted", [])) + [COMPG_TRUST]
     PROPS[_pid] = _m
 
+# T13: what Cache.v assumes of a decorated call proved of the regenerated invalidate_cache
+CACHEG_TRUST = ("translator cachegen.py (T13): util/funcs.py::invalidate_cache executed symbolically from its AST into gen/CacheGen.v over "
+                "PyCacheSupport.v; Cache.v's `cache_drop` followed by the call is PROVED to be what the regenerated wrapper does "
+                "(props/CacheGen.v); trusted: an instance's __dict__ restricted to cached-property names as name -> cached value, "
+                "prop.attrname identifies the property, functools.wraps changes no behaviour; functools.cached_property itself (a read "
+                "populates, a populated read returns the stored value) stays modelled by Cache.v and tied by the history correspondence")
+for _pid in ("C08",):
+    _m = dict(PROPS[_pid])
+    _m["extra_prop_files"] = list(_m.get("extra_prop_files", [])) + ["props/CacheGen.v"]
+    _m["generators"] = list(_m.get("generators", [])) + ["T-cache"]
+    _m["trusted"] = list(_m.get("trusted", [])) + [CACHEG_TRUST]
+    PROPS[_pid] = _m
+
 # source pins (translator/pins.py): the hand-written models that are tied by sampling only have the text they were
 # written from pinned, so that no edit of it goes unnoticed
 PINS = {"compile": ["C03", "C04", "C05", "C16", "C19", "C13"], "selection": ["C13"], "cache": ["C08"],
